@@ -233,33 +233,59 @@ func RuleF3(c *Ctx) {
 type tupleSpec struct {
 	rel, fn string
 	members []string // identifiers (parameters / locals) or "proof.L" style selectors
+	recv    string
 }
 
 var parallelTuples = []tupleSpec{
-	{"", "CreateMultiProof", []string{"Cs", "fs", "zs"}},
-	{"", "CheckMultiProof", []string{"Cs", "ys", "zs", "powers_of_r"}},
-	{"", "groupPolynomialsByEvaluationPoint", []string{"fs", "powersOfR", "zs"}},
-	{"ipa", "generateChallenges", []string{"proof.L", "proof.R", "challenges"}},
-	{"ipa", "CheckIPAProof", []string{"proof.L", "proof.R", "challenges", "challengesInv"}},
+	{"", "CreateMultiProof", []string{"Cs", "fs", "zs"}, ""},
+	{"", "CheckMultiProof", []string{"Cs", "ys", "zs", "powers_of_r"}, ""},
+	{"", "groupPolynomialsByEvaluationPoint", []string{"fs", "powersOfR", "zs"}, ""},
+	{"ipa", "generateChallenges", []string{"proof.L", "proof.R", "challenges"}, ""},
+	{"ipa", "CheckIPAProof", []string{"proof.L", "proof.R", "challenges", "challengesInv"}, ""},
+}
+
+// element-wise maps of the MSM stack and the batch helpers (rule M1 / U-rules): index i is combined with index i.
+var elementwiseTuples = []tupleSpec{
+	{"bandersnatch", "msmProcessChunkPointAffineDMA", []string{"points", "scalars"}, ""},
+	{"bandersnatch", "partitionScalars", []string{"toReturn", "scalars"}, ""},
+	{"banderwagon", "MultiExp", []string{"projPoints", "points"}, "Element"},
+	{"banderwagon", "batchProjToAffine", []string{"result", "points", "zeroes"}, ""},
+	{"banderwagon", "batchToExtendedPointNormalized", []string{"result", "points", "zeroes"}, ""},
+	{"banderwagon", "MSM", []string{"scalars", "msm.precompPoints"}, "MSMPrecomp"},
+}
+
+var batchTuples = []tupleSpec{
+	{"banderwagon", "ElementsToBytes", []string{"elements", "zs", "zInvs", "serialised_points"}, ""},
+	{"banderwagon", "BatchToBytesUncompressed", []string{"elements", "zs", "zInvs", "uncompressedPoints"}, ""},
+	{"banderwagon", "BatchMapToScalarField", []string{"elements", "ys", "yInvs", "result"}, ""},
+	{"banderwagon", "BatchNormalize", []string{"dedupedElements", "invs"}, ""},
 }
 
 // RuleF4 — inside one loop, all indexings of members of a parallel tuple use the loop's own variable.
-func RuleF4(only ...string) Rule {
+func RuleF4(only ...string) Rule { return ruleTuples("F4", parallelTuples, 6, only...) }
+
+// RuleM1b — element-wise maps of the MSM stack.
+func RuleM1b(c *Ctx) { ruleTuples("M1", elementwiseTuples, 6)(c) }
+
+// RuleU4 — batch helpers pair element i with inverse i and output i.
+func RuleBatchIdx(c *Ctx) { ruleTuples("U4", batchTuples, 4)(c) }
+
+func ruleTuples(rule string, tuples []tupleSpec, floor int, only ...string) Rule {
 	return func(c *Ctx) {
-		c.Rule("F4", "parallel-index agreement: every indexing of a member of a declared parallel tuple (Cs,fs,zs / Cs,ys,zs / proof.L,proof.R,challenges) uses the induction variable of the enclosing loop, the same one for all members in that loop")
+		c.Rule(rule, "parallel-index agreement: every indexing of a member of a declared parallel tuple (openings: Cs,fs,zs / Cs,ys,zs; rounds: proof.L,proof.R,challenges; element-wise maps: points,scalars / elements,inverses,outputs) uses the induction variable of the enclosing loop, the same one for all members in that loop")
 		loopsSeen := 0
-		for _, ts := range parallelTuples {
+		for _, ts := range tuples {
 			if len(only) > 0 && !contains(only, ts.fn) {
 				continue
 			}
-			fn := c.P.Fn(ts.rel, "", ts.fn)
+			fn := c.P.Fn(ts.rel, ts.recv, ts.fn)
 			if fn == nil {
-				c.Unresolved("F4", ts.fn)
+				c.Unresolved(rule, ts.fn)
 				continue
 			}
 			fd, info := c.P.Decl(fn), c.P.Info(fn)
 			if fd == nil {
-				c.Unresolved("F4", ts.fn+" (syntax)")
+				c.Unresolved(rule, ts.fn+" (syntax)")
 				continue
 			}
 			c.Saw(core.FnName(fn))
@@ -346,16 +372,16 @@ func RuleF4(only ...string) Rule {
 						}
 						switch {
 						case idx == nil || io == nil:
-							c.Bad("F4", key, x.Pos(), fmt.Sprintf("%s is indexed by %s, not by the induction variable of the enclosing loop over the openings/rounds", m, types.ExprString(x.Index)))
+							c.Bad(rule, key, x.Pos(), fmt.Sprintf("%s is indexed by %s, not by the induction variable of the enclosing loop over the openings/rounds", m, types.ExprString(x.Index)))
 						case encl == nil:
-							c.Bad("F4", key, x.Pos(), fmt.Sprintf("%s is indexed by %s, which is not the variable of any enclosing loop", m, idx.Name))
+							c.Bad(rule, key, x.Pos(), fmt.Sprintf("%s is indexed by %s, which is not the variable of any enclosing loop", m, idx.Name))
 						default:
 							if perLoop[encl.node] == nil {
 								perLoop[encl.node] = map[string]types.Object{}
 								loopsSeen++
 							}
 							perLoop[encl.node][m] = io
-							c.OK("F4", key, x.Pos(), fmt.Sprintf("%s[%s]: %s is the induction variable of the enclosing loop", m, idx.Name, idx.Name))
+							c.OK(rule, key, x.Pos(), fmt.Sprintf("%s[%s]: %s is the induction variable of the enclosing loop", m, idx.Name, idx.Name))
 						}
 						walk(x.Index)
 						return
@@ -373,7 +399,7 @@ func RuleF4(only ...string) Rule {
 			walk(fd.Body)
 		}
 		if len(only) == 0 {
-			c.FloorN("F4", 6, loopsSeen, "loops indexing parallel tuples")
+			c.FloorN(rule, floor, loopsSeen, "loops indexing parallel tuples")
 		}
 	}
 }
